@@ -263,7 +263,15 @@ func c20Body(t *testing.T, combos [][]int, withStop bool, bound int) mc.Body {
 			}
 			if len(rec.problems) > 0 {
 				fail()
-				_ = s.do(func() error { inst.Close(); return nil }, false)
+				_ = s.do(func() error {
+					if withStop {
+						inst.Stop2() // Store.Stop was already called by the shutdown thread
+						os.RemoveAll(inst.Dir)
+					} else {
+						inst.Close()
+					}
+					return nil
+				}, false)
 				nats.RemoveBus(url)
 				return
 			}
